@@ -82,6 +82,19 @@ Theorem C15_delivery_complete : forall (A : Type) (raises : A -> bool) (l : list
 Proof. exact (fun A => @cut_all A). Qed.
 Print Assumptions C15_delivery_complete.
 
+(* The registration list in force (`subscribers (t_broker st) event`, to which C15_deliveries refers): register_callback
+   appends the pair -- whatever was registered or removed before --, so the callback IS a subscriber afterwards; registered,
+   removed and registered again leaves the pair registered once, behind the others. *)
+Theorem C15_registered_is_subscribed : forall (b : trk_broker) (ev : trk_event) (cb : Z),
+  In cb (subscribers (brk_attach b ev cb) ev).
+Proof. exact attach_subscribed. Qed.
+Print Assumptions C15_registered_is_subscribed.
+
+Theorem C15_registered_again : forall (b : trk_broker) (ev : trk_event) (cb : Z), ~ In (ev, cb) b ->
+  brk_attach (brk_detach (brk_attach b ev cb) ev cb) ev cb = b ++ [(ev, cb)].
+Proof. exact reattach. Qed.
+Print Assumptions C15_registered_again.
+
 (* Which exception an operation raises: ValueError of a rejected update (nobody was called), or the exception of the LAST
    callback it invoked -- the one that cut the loop --, except that a KeyError of a DELETED callback never leaves. *)
 Theorem C15_exception_origin : forall (V : Type) (nattrs : nat) (env : trk_env V) (st : trk_tracker V) (op : trk_op V) (e : exn),
@@ -129,4 +142,20 @@ Example C15_nonvacuous_raising :
     [[]; []; []; []; [(7, 111)]; [(7, 222)]; [(100, 111); (7, 111)]] /\
   map (@tr_mmsi Z) (trk_tracks (fst run)) = [222] /\
   sp_alive 111 (run_events_c (snd run)) = Some false /\ sp_alive 222 (run_events_c (snd run)) = Some true.
+Proof. vm_compute. repeat split. Qed.
+
+
+(* non-vacuity: subscriber 10 of UPDATED is removed and registered again; the update in between is not delivered to it,
+   the ones after the re-registration are; the TTL is changed and the tracker switched to unordered on the way (these
+   operations emit nothing) *)
+Example C15_nonvacuous_reregistered :
+  let q := @trk_env_quiet Z in
+  let h := [(q, OpAttach UPDATED 10); (q, OpUpdate 0 (mkMsg 111 [MPresent (Some 1)]) (Some 0));
+            (q, OpUpdate 0 (mkMsg 111 [MPresent (Some 1)]) (Some 1));
+            (q, OpDetach UPDATED 10); (q, OpSetTtl (Some 5)); (q, OpUpdate 0 (mkMsg 111 [MPresent (Some 1)]) (Some 2));
+            (q, OpAttach UPDATED 10); (q, OpUnordered); (q, OpUpdate 0 (mkMsg 111 [MPresent (Some 1)]) (Some 3))] in
+  let run := trkc_run 1 (trk_init None true) h in
+  map (fun r => map (fun d => (fst (fst d), tr_lu (snd d))) (rc_deliv r)) (snd run) =
+    [[]; []; [(10, 1)]; []; []; []; []; []; [(10, 3)]] /\
+  run_events_c (snd run) = [(SCreated, 111); (SUpdated, 111); (SUpdated, 111); (SUpdated, 111)].
 Proof. vm_compute. repeat split. Qed.
